@@ -32,6 +32,7 @@ THEOREMS = [
     "C05_generated_facts", "C05_coerce_sound", "C05_rejects_fractions", "C05_without_boolean_fix",
     "C05_without_uint_fix", "C05_without_digest_fix", "C05_invariant", "C05_invariant_blank",
     "C05_invariant_former_witness", "C05_failed_op_is_noop", "C05_grouped_assignment_is_member_assignment",
+    "C05_constructor_state_free", "C05_new_record_holds_defaults", "C05_records_do_not_share_state",
     "C05_none_is_always_accepted", "C05_rejects_unrepresentable", "C05_rejects_uint16_out_of_range",
     "C05_rejects_uint32_out_of_range", "C05_rejects_boolean_other_integer", "C05_rejects_non_bytes",
     "C05_rejects_malformed_digest", "C05_rejects_address_out_of_range", "C05_accepts_representable",
@@ -993,6 +994,18 @@ class Case:
         return dict(kind="ops", types=self.types, kw=self.kw, ops=self.ops, label=self.label)
 
 
+class WorldCase(Case):
+    """a history over SEVERAL records of one descriptor, with in-place mutation of the values they hold:
+       ("new", {idx: (tn, kind)})            one more record (fields without a value get the documented default)
+       | ("mutate", j, idx, how, value)      records[j].<field>: how = "append" | "iadd" (lists), "md5" (digest)
+       | ("wset", j, idx, (tn, kind)|None)   setattr on records[j]
+       | ("replace_new", j, {idx: ref|None}) records[j]._replace(...) as one more record
+       | ("decode_none", j)                  records[j] (all user fields None) through a record stream: one more record"""
+
+    def to_json(self):
+        return dict(kind="world", types=self.types, kw=self.kw, ops=self.ops, label=self.label)
+
+
 def descriptor_for(case):
     from flow.record import RecordDescriptor
     names = (KW_NAMES if case.kw else FIELD_NAMES)[: len(case.types)]
@@ -1198,6 +1211,206 @@ def execute(world, case, check_serialise=True):
     term = "case_ops gen_facts %s %s %s %s %s" % (
         tbl, cbool(case.kw), clist([coq_ftype(t) for t, _ in fields]), clist(coq_ops), clist(coq_exp))
     return term, problems, steps
+
+
+def execute_world(world, case):
+    """Run a multi-record history on the implementation.  Returns (coq term, problems, step summaries)."""
+    enc = world.enc
+    enc.reset_tables()
+    d, names = descriptor_for(case)
+    fields = list(zip(case.types, names)) + RESERVED
+    all_names = names + [n for _, n in RESERVED]
+    nuser = len(case.types)
+    records = []
+    coq_ops, coq_exp, steps, problems = [], [], [], []
+
+    def get(ref):
+        if ref is None:
+            return None, None
+        c = world.by_kind(*ref)
+        return c, c.value
+
+    def observe_all():
+        return [[enc.sv(getattr(r, n)) for n in all_names] for r in records]
+
+    def default_term(tn):
+        if case.kw:
+            return "SNone"
+        return "(SList [])" if tn.endswith("[]") else ("(SDigest None None None)" if tn == "digest" else "SNone")
+
+    def check_fresh(si, what, rec, unset):
+        """slots that were given no value hold the documented default -- a new one"""
+        for idx in unset:
+            tn = case.types[idx]
+            val = getattr(rec, names[idx])
+            got = enc.sv(val)
+            if got != default_term(tn):
+                problems.append(Problem("default", "step %d: %s: the %s field that was given no value holds %s instead of the type's "
+                                        "empty default (values of another record of the type)" % (si, what, tn, _short(_plain_repr(val))),
+                                        dict(type=base_of(tn), list_form=tn.endswith("[]"), candidate_kind=None, candidate_classes=[],
+                                             stage="default"), si))
+            if val is not None:
+                for other in records:
+                    if other is not rec and getattr(other, names[idx]) is val:
+                        problems.append(Problem("default", "step %d: %s: the %s field that was given no value is the SAME object as "
+                                                "another record's" % (si, what, tn),
+                                                dict(type=base_of(tn), list_form=tn.endswith("[]"), candidate_kind=None,
+                                                     candidate_classes=[], stage="default"), si))
+
+    for si, op in enumerate(case.ops):
+        before = observe_all()
+        err = None
+        with warnings.catch_warnings():
+            warnings.simplefilter("ignore")
+            try:
+                if op[0] == "new":
+                    kwargs = {"_generated": T0}
+                    args = ["PNone"] * nuser
+                    for idx, ref in op[1].items():
+                        idx = int(idx)
+                        c, v = get(ref)
+                        enc.oracle(v, case.types[idx])
+                        args[idx] = enc.pv(v)
+                        kwargs[names[idx]] = v
+                    coq_ops.append("(WNew (%s ++ ARGS0))" % clist(args))
+                    rec = d.recordType(**kwargs)
+                    records.append(rec)
+                    check_fresh(si, "a new record", rec, [i for i in range(nuser) if i not in [int(k) for k in op[1]]])
+                elif op[0] == "mutate":
+                    _, j, idx, how, x = op
+                    coq_ops.append("(WMutate %d%%nat %d%%nat %s)" % (j, idx, enc.pv(x)))
+                    val = getattr(records[j], names[idx])
+                    if val is not None:
+                        if how == "append":
+                            val.append(x)
+                        elif how == "iadd":
+                            val += [x]
+                        elif how == "md5":
+                            val.md5 = x
+                elif op[0] == "wset":
+                    _, j, idx, ref = op
+                    c, v = get(ref)
+                    if c is not None:
+                        enc.oracle(v, fields[idx][0])
+                    coq_ops.append("(WOp %d%%nat (OSet %d%%nat %s))" % (j, idx, enc.pv(v)))
+                    setattr(records[j], all_names[idx], v)
+                elif op[0] == "replace_new":
+                    _, j, kv = op
+                    kvs, kwargs = [], {}
+                    for idx, ref in kv.items():
+                        idx = int(idx)
+                        c, v = get(ref)
+                        if c is not None:
+                            enc.oracle(v, fields[idx][0])
+                        kvs.append("(%d%%nat, %s)" % (idx, enc.pv(v)))
+                        kwargs[all_names[idx]] = v
+                    coq_ops.append("(WReplaceNew %d%%nat %s)" % (j, clist(kvs)))
+                    src = records[j]
+                    unset = [i for i in range(nuser) if getattr(src, names[i]) is None and i not in [int(k) for k in kv]]
+                    rec = src._replace(**kwargs)
+                    records.append(rec)
+                    check_fresh(si, "_replace of a record whose field is None", rec, unset)
+                elif op[0] == "decode_none":
+                    j = op[1]
+                    src = records[j]
+                    if any(getattr(src, n) is not None for n in names):
+                        raise AssertionError("decode_none needs a record whose user fields are None")
+                    coq_ops.append("(WNew (%s ++ ARGS0))" % clist(["PNone"] * nuser))
+                    data, _ = serialise(src)
+                    back = [b for b in decode_stream(data) if b._desc.name == src._desc.name]
+                    rec = back[0]
+                    records.append(rec)
+                    check_fresh(si, "a record decoded from a stream whose field is None", rec, list(range(nuser)))
+                else:
+                    raise ValueError(op)
+            except AssertionError:
+                raise
+            except Exception as e:  # noqa: the outcome class is the observation
+                err = type(e).__name__
+        after = observe_all()
+        accepted = err is None
+        coq_exp.append("(%s, %s)" % (cbool(accepted), clist(clist(r) for r in after)))
+        steps.append(dict(op=op[0], outcome="accepted" if accepted else err))
+        # frame: only the record(s) the operation works on may change
+        target = op[1] if op[0] in ("mutate", "wset") else None
+        for k, (b, a) in enumerate(zip(before, after)):
+            if k != target and a != b:
+                problems.append(Problem("frame", "step %d (%s): record %d changed although the operation works on %s" % (
+                    si, op[0], k, "record %d" % target if target is not None else "a new record"),
+                    dict(type=None, candidate_kind=None, candidate_classes=[], stage="frame"), si))
+        if not accepted and after != before:
+            problems.append(Problem("unchanged", "step %d (%s) raised %s but changed a record" % (si, op[0], err),
+                                    dict(type=None, candidate_kind=None, candidate_classes=[], stage="unchanged"), si))
+    term = "case_world gen_facts %s %s %s %s %s" % (
+        enc.tables_term(), cbool(case.kw), clist([coq_ftype(t) for t, _ in fields]), clist(coq_ops), clist(coq_exp))
+    return term, problems, steps
+
+
+def _plain_repr(v):
+    try:
+        return repr(list(v)) if isinstance(v, list) else repr(v)
+    except Exception:  # noqa
+        return "<%s>" % type(v).__name__
+
+
+def world_cases(world, typenames, rnd=None, nrandom=0):
+    """fixed histories for every list type and digest (normal and keyword-named descriptor): a record built without a
+    value, its default mutated in place, then further records built without a value / by _replace of a record whose
+    field is None / decoded from a stream whose field is None -- each must hold a fresh default"""
+    out = []
+    targets = [tn + "[]" for tn in typenames] + ["digest"]
+    for tn in targets:
+        if tn == "digest":
+            mut1 = ("md5", MD5)
+            mut2 = ("md5", "0" * 32)
+            valid = ("digest", "tuple_md5")
+        else:
+            raw = "raw-text" if base_of(tn) not in ("string", "wstring", "uri") else 70000
+            mut1 = ("append", raw)
+            mut2 = ("iadd", 5.5)
+            good = [c for c in world.table(tn) if c.expect == "accept" and c.kind.startswith("list1:")]
+            valid = (tn, good[0].kind) if good else None
+        for kw in (False, True):
+            ops = [("new", {})]
+            if kw and valid:
+                ops.append(("wset", 0, 0, valid))          # keyword-named descriptors have no defaults: give A a value
+            ops += [("mutate", 0, 0) + mut1, ("new", {}), ("mutate", 1, 0) + mut2, ("wset", 1, 0, None), ("replace_new", 1, {}),
+                    ("decode_none", 1), ("mutate", 3, 0) + mut1, ("new", {}), ("mutate", 0, 0) + mut2, ("new", {})]
+            out.append(WorldCase([tn], kw, ops, "world"))
+    # two list fields and a digest side by side
+    for kw in (False, True):
+        ops = [("new", {}), ("mutate", 0, 0, "append", "x"), ("mutate", 0, 2, "append", 70000), ("mutate", 0, 1, "md5", MD5),
+               ("new", {}), ("new", {0: ("string[]", "list1:str_text")}), ("mutate", 2, 2, "iadd", "y"), ("new", {}),
+               ("wset", 3, 2, None), ("replace_new", 3, {0: ("string[]", "list1:str_text")})]
+        out.append(WorldCase(["string[]", "digest", "uint16[]"], kw, ops, "world"))
+    if rnd is not None:
+        lists = [tn + "[]" for tn in typenames if tn not in ("record",)]
+        for _ in range(nrandom):
+            types = [rnd.choice(lists + ["digest"]) for _ in range(rnd.randrange(1, 4))]
+            kw = rnd.random() < 0.3
+            ops = [("new", {})]
+            nrec = 1
+            handed_on = set()
+            for _ in range(rnd.randrange(3, 9)):
+                x = rnd.random()
+                j = rnd.randrange(nrec)
+                idx = rnd.randrange(len(types))
+                tn = types[idx]
+                if x < 0.4 and j not in handed_on:
+                    if tn == "digest":
+                        ops.append(("mutate", j, idx, "md5", rnd.choice([MD5, "0" * 32, "ff" * 16])))
+                    else:
+                        ops.append(("mutate", j, idx, rnd.choice(["append", "iadd"]), rnd.choice(["raw", 70000, 5.5, -1, b"b"])))
+                elif x < 0.75:
+                    good = [c for c in world.table(tn) if c.expect == "accept" and not c.kind.startswith(("listobj_", "list_instance"))
+                            and "foreign" not in c.kind and "instance" not in c.kind and "mixed" not in c.kind]
+                    ids = {idx: (tn, rnd.choice(good).kind)} if good and rnd.random() < 0.4 else {}
+                    ops.append(("new", ids))
+                    nrec += 1
+                else:
+                    ops.append(("wset", j, idx, None))
+            out.append(WorldCase(types, kw, ops, "world-random"))
+    return out
 
 
 def _short(v):
@@ -1450,8 +1663,15 @@ def evaluate(ctx, world, cases, kf, coq=True):
     reported = False
     nprob = 0
     for case in cases:
-        term, problems, steps = execute(world, case)
-        for si, st in enumerate(steps):
+        if isinstance(case, WorldCase):
+            term, problems, steps = execute_world(world, case)
+            for si, st in enumerate(steps):
+                ctx.count_case((tuple(case.types), case.kw, "world", si, repr(case.ops[si]), st["outcome"]), nontrivial=True)
+            steps_iter = []
+        else:
+            term, problems, steps = execute(world, case)
+            steps_iter = steps
+        for si, st in enumerate(steps_iter):
             op = case.ops[si]
             refs = []
             if op[0] in ("set", "gset", "set_unknown", "replace_unknown"):
@@ -1493,7 +1713,7 @@ def evaluate(ctx, world, cases, kf, coq=True):
 
 def explain(ctx, term):
     """the model's own run of a disagreeing case (for the replay file)"""
-    t = term.replace("case_ops gen_facts", "model_run gen_facts", 1)
+    t = term.replace("case_ops gen_facts", "model_run gen_facts", 1).replace("case_world gen_facts", "model_world gen_facts", 1)
     # drop the last argument (the observations)
     depth = 0
     cut = None
@@ -1566,9 +1786,10 @@ def search(ctx, reason):
         probes = [Case([tn], False, [("construct", {}), ("set", 0, (tn, kind))], "former-finding")
                   for tn, kind in (("boolean", "float_fraction_in_0_1"), ("uint16", "float_fraction"), ("uint32", "float_fraction"),
                                    ("digest", "str_hex"))]
-        cases = probes + pair_cases(world, names) + single_cases(world, names) + random_cases(world, names, random.Random(ctx.seed), 150)
+        cases = (probes + world_cases(world, names) + pair_cases(world, names) + single_cases(world, names)
+                 + random_cases(world, names, random.Random(ctx.seed), 150))
         for case in cases:
-            term, problems, steps = execute(world, case)
+            term, problems, steps = (execute_world if isinstance(case, WorldCase) else execute)(world, case)
             for p in problems:
                 if not finding_for(kf, p.info):
                     ctx.violation("%s; failing input: %s" % (reason, p.what),
@@ -1618,7 +1839,8 @@ def run(ctx):
     names = all_typenames()
     rnd = random.Random(ctx.seed)
     quick = ctx.tier == "quick"
-    cases = pair_cases(world, names) + single_cases(world, names, quick=quick) + random_cases(world, names, rnd, 250 if quick else 12000)
+    cases = (world_cases(world, names, rnd, 60 if quick else 1500) + pair_cases(world, names) + single_cases(world, names, quick=quick)
+             + random_cases(world, names, rnd, 250 if quick else 12000))
     reported, terms, metas = evaluate(ctx, world, cases, kf)
     if not reported:
         reported = range_sweep(ctx)
@@ -1644,6 +1866,26 @@ def replay(obj):
             print("  PROBLEM:", p["what"])
         print("replay list-class scenario (%s order): %d problems" % (obj["order"], len(res["problems"])))
         return 1 if res["problems"] else 0
+    if obj.get("kind") == "world":
+        world = World()
+        ops = []
+        for op in obj["ops"]:
+            op = list(op)
+            if op[0] == "new":
+                op[1] = {int(k): tuple(v) for k, v in op[1].items()}
+            elif op[0] == "wset":
+                op[3] = tuple(op[3]) if op[3] is not None else None
+            elif op[0] == "replace_new":
+                op[2] = {int(k): (tuple(v) if v is not None else None) for k, v in op[2].items()}
+            ops.append(tuple(op))
+        case = WorldCase(obj["types"], obj["kw"], ops, obj.get("label", "replay"))
+        term, problems, steps = execute_world(world, case)
+        print("replay world history types=%s kw=%s" % (case.types, case.kw))
+        for o, st in zip(case.ops, steps):
+            print("  %s -> %s" % (_short(o), st["outcome"]))
+        for p in problems:
+            print("  PROBLEM (%s): %s" % (p.stage, p.what))
+        return 1 if problems else 0
     if obj.get("kind") != "ops":
         print("replay of kind %s: re-run ./check C05" % obj.get("kind"))
         return 2
